@@ -181,6 +181,22 @@ class Interp:
             init = f.cls.lookup("__init__")
             if isinstance(init, Func):
                 self.call_func(init, None, args, kwargs, obj)
+            elif any(x.split(".")[-1] == "NamedTuple" for x in f.cls.ext_bases()):
+                # typing.NamedTuple: the annotated fields, in order, bound positionally / by keyword / from defaults
+                fields = [(st.target.id, st.value) for st in f.cls.node.body
+                          if isinstance(st, ast.AnnAssign) and isinstance(st.target, ast.Name)]
+                if len(args) > len(fields) or any(k not in [n_ for n_, _ in fields] for k in kwargs):
+                    raise AbsRaise("TypeError: NamedTuple construction")
+                for i, (nm, dflt) in enumerate(fields):
+                    if i < len(args):
+                        obj.attrs[nm] = args[i]
+                    elif nm in kwargs:
+                        obj.attrs[nm] = kwargs[nm]
+                    elif dflt is not None:
+                        obj.attrs[nm] = self.eval(dflt, Env(f.cls.module))
+                    else:
+                        raise AbsRaise(f"TypeError: missing field {nm}")
+                obj.attrs["__tuple_fields__"] = [nm for nm, _ in fields]
             return obj
         if callable(f) and not isinstance(f, (Obj,)):
             try:
@@ -370,6 +386,8 @@ class Interp:
 
     # ------------------------------------------------------------------ expressions
     def iterate(self, v):
+        if isinstance(v, Obj) and "__tuple_fields__" in v.attrs:
+            return [v.attrs[n_] for n_ in v.attrs["__tuple_fields__"]]
         if isinstance(v, (list, tuple, set, frozenset, dict, range)):
             return list(v)
         if isinstance(v, type({}.items())) or isinstance(v, type({}.values())) or isinstance(v, type({}.keys())):
@@ -523,10 +541,14 @@ class Interp:
                 hi = self.eval(e.slice.upper, env) if e.slice.upper else None
                 return o[lo:hi]
             k = self.eval(e.slice, env)
+            if isinstance(o, Obj) and "__tuple_fields__" in o.attrs and isinstance(k, int):
+                o = [o.attrs[n_] for n_ in o.attrs["__tuple_fields__"]]
             try:
                 return o[k]
             except (KeyError, IndexError) as ex:
                 raise AbsRaise(f"{type(ex).__name__}")
+            except TypeError as ex:
+                raise AbsRaise(f"TypeError: {ex}")
         if isinstance(e, ast.Tuple):
             out = []
             for x in e.elts:
